@@ -891,6 +891,7 @@ func (x *Exec) step(s *State, fr *Frame, in ssa.Instruction) error {
 			x.bind(s, fr, in, tv(r, in.Type()))
 			return nil
 		case token.ARROW:
+			x.checkAwait(s, x.siteName(s, in))
 			return &abortPath{"channel receive in " + x.fnName(fr.fn)}
 		}
 		return fmt.Errorf("unsupported unary op %s", in.Op)
@@ -1169,6 +1170,25 @@ func (x *Exec) step(s *State, fr *Frame, in ssa.Instruction) error {
 	case *ssa.Go:
 		// the spawned goroutine is not followed; from here on it may run at any time, so everything
 		// it could write is unknown (all heap components are havoc'd). Lock state is per goroutine.
+		// What is kept: the mutexes the goroutine certainly acquires (see checkAwait).
+		if in.Call.Value != nil && !in.Call.IsInvoke() {
+			if fv, err := get(in.Call.Value); err == nil {
+				var gargs []Val
+				for _, a := range in.Call.Args {
+					if v, err := get(a); err == nil {
+						gargs = append(gargs, v)
+					} else {
+						gargs = append(gargs, Val{})
+					}
+				}
+				if fv.Fn == nil {
+					if sf, ok := in.Call.Value.(*ssa.Function); ok {
+						fv.Fn = sf
+					}
+				}
+				x.noteSpawn(s, fv, gargs)
+			}
+		}
 		for k := range x.heapSorts {
 			x.heapHavoc(s, k)
 		}
@@ -1180,6 +1200,9 @@ func (x *Exec) step(s *State, fr *Frame, in ssa.Instruction) error {
 	case *ssa.Select:
 		// channel readiness is not modelled: any listed case (or the default) may be chosen and
 		// received values are arbitrary well-typed values
+		if in.Blocking {
+			x.checkAwait(s, x.siteName(s, in))
+		}
 		idx := Var(x.eng.fresh("sel$idx$"+in.Name()), SInt)
 		lo := IntLit(0)
 		if !in.Blocking {
